@@ -23,6 +23,15 @@ P = {
  "C15": ("exploration", "rapid stateful (model-based) PBT: one list operation per step on five arrays, results and all contents printed after every step, differential against a reference list model",
    "6k (120k thorough) histories of up to 20 (60) operations - push, pop, popfirst, index read/write with every index class, length, contains, sort, and method calls nested in each other's arguments - on arrays held by variables, by the document and by an object; after every step the result and every array with its length are compared with refjq's ideal list, and the final document with the reference root. Exploration (stateful model-based).",
    "Trusted: refjq's list model (DESIGN.md 4.8, section 3.6 for contains, string form for sort). Arrays are reached through the name or path that holds them, as the property states; aliasing is C09's subject (KF-array-alias excluded dynamically).", "5/C15, 4.8"),
+ "C16": ("exploration", "rapid PBT with direct oracles per contract: algebraic laws (round trip join/split, idempotence, receiver unchanged), exact rational arithmetic for floor/ceil/round and num(), an explicit model for pluck; misuse cases differential against refjq",
+   "20k (600k thorough) contract cases over strings (all valid UTF-8, separators at the ends / doubled / overlapping / empty), doubles (halves of both signs, 2^52 and 2^53 neighbourhoods, tiny), objects x key lists (present, absent, repeated, numeric, method-named) and numeric strings; 8k (200k) misuse cases (every method and builtin x every receiver kind x 0-3 arguments) must give a value or a runtime error and agree with refjq where it specifies. Exploration (algebraic laws + reference).",
+   "Trusted: Go's unicode tables for non-ASCII case mapping, math/big, and json() as the observation device. Exotic numeric strings (hex floats, inf/nan, underscores, surrounding whitespace, overflow) are not asserted.", "5/C16, 4.8"),
+ "C17": ("exploration", "rapid PBT: round trip (printed number -> exact decimal -> identical double; printed container -> strict JSON parse -> equal value) and differential against a reference renderer for sharing and cycles",
+   "12k (1.5M thorough) doubles from all strata plus uniformly random bit patterns, via JSON input, literals and arithmetic: the text must be positional decimal and convert back, with exact rational arithmetic, to the identical bit pattern. 8k (200k) programs build values with empty containers, shared sub-structures and cycles of any length through arrays/objects by element and member stores and print them with 0-4 arguments: exact bytes from refjq, <circular reference> exactly at recurrence points. 5k (100k) documents: the rendering parses as JSON equal to the value. Exploration (round trip + model).",
+   "Trusted: refjq's rendering rules (DESIGN.md 4.6), math/big, the harness's strict JSON recogniser. Object key order is accepted in any order.", "5/C17, 4.6"),
+ "C18": ("exploration", "rapid PBT over a format-string grammar; differential against a reference formatter",
+   "25k (500k thorough) single printf calls: formats assembled from literal bytes, %[width]{s,f,v}, %%, unknown directives, dangling % / width; widths chosen relative to the rendering length (len-1, len, len+1, negative, zero-padded, at and beyond the 65536 limit, 25 digits); arguments of every kind, fitting, wrong, missing, surplus. Exact stdout bytes, or RuntimeError with nothing of the printf written and earlier output kept. Exploration (reference formatter).",
+   "Trusted: refjq's formatter (DESIGN.md 4.7). A width on %% and %-0N are unspecified and discarded.", "5/C18, 4.7"),
  "C19": ("exploration", "rapid PBT over match expressions (patterns aimed to hit or miss the subject); differential against a reference model of case selection, binding and evaluation order",
    "15k (300k thorough) programs with 1-3 match expressions: subjects of every kind, 1-5 cases x 1-3 alternatives (literals, identifiers, nested array patterns, deliberate misses), expression and block bodies with return/next/continue, poisoned later patterns that fault if evaluated, match in every syntactic use. Printed values and side-effect traces must equal refjq's. Exploration (model-based differential).",
    "Trusted: refjq's match semantics (DESIGN.md 4.5). Negative-number, regex and other expression patterns are unspecified and not generated; assignment to a bound name is not generated.", "5/C19, 4.5"),
